@@ -7,6 +7,7 @@ import (
 	"encoding/binary"
 	"errors"
 	"fmt"
+	"io"
 	"math"
 	"net"
 	"time"
@@ -262,11 +263,14 @@ func (a *TCPAllocation) BindConnection(dataConn *TCPConn, cid proto.ConnectionID
 	}
 
 	// Read exactly one STUN message, any data after belongs to the user
+	// The reply may arrive in any number of TCP segments: read until the
+	// header, then the body, is complete.
 	b := make([]byte, stunHeaderSize)
-	n, err := dataConn.Read(b)
-	if n != stunHeaderSize {
-		return errIncompleteTURNFrame
-	} else if err != nil {
+	if _, err = io.ReadFull(dataConn, b); err != nil {
+		if errors.Is(err, io.ErrUnexpectedEOF) {
+			return errIncompleteTURNFrame
+		}
+
 		return err
 	}
 
@@ -274,11 +278,10 @@ func (a *TCPAllocation) BindConnection(dataConn *TCPConn, cid proto.ConnectionID
 		return errInvalidTURNFrame
 	}
 
-	datagramSize := binary.BigEndian.Uint16(b[2:4]) + stunHeaderSize
+	datagramSize := int(binary.BigEndian.Uint16(b[2:4])) + stunHeaderSize
 	raw := make([]byte, datagramSize)
 	copy(raw, b)
-	_, err = dataConn.Read(raw[stunHeaderSize:])
-	if err != nil {
+	if _, err = io.ReadFull(dataConn, raw[stunHeaderSize:]); err != nil {
 		return err
 	}
 	res := &stun.Message{Raw: raw}
